@@ -24,7 +24,10 @@ RULE = ('Hypothesis: Message (18 types), MetaMessage (all known types) and Unkno
         'freeze maps each class to its frozen counterpart, equals the original, rejects setattr/delattr/data+=; equal '
         'frozen messages hash equal and find each other in dict/set; thaw(freeze(m))==m with the original class and a new '
         'identity; freeze(frozen) is frozen; thaw(non-frozen) is an equal distinct copy; None maps to None. Non-trivial = at '
-        'least one override or post-copy assignment; distinct by (value, overrides).')
+        'least one override or post-copy assignment; distinct by (value, overrides).'
+        ' Later additions: messages from every construction route (from_bytes, parser, file, from_str, from_dict,'
+        ' copy) compared and hashed against each other, frozen messages kept alive across cases, -1/-2 twins,'
+        ' copy(type=<equal string>), copies of frozen messages.')
 ASSUMPTIONS = ['UnknownMetaMessage performs no validation at all, so only valid overrides are generated for it']
 
 OKEXC = (ValueError, TypeError, AttributeError, BytesWarning)   # (BytesWarning: bytes value vs str under python -bb)
